@@ -1101,7 +1101,7 @@ int EnvMain(const std::map<std::string, std::string> &a, const std::string &cmd)
   const bool hashlog = get("hashlog", "0") != "0";
   const int envs = tier == "thorough" ? 8 : 3;
   uint64_t total = strtoull(get("max-runs", "0").c_str(), nullptr, 0);
-  if (!total) total = tier == "thorough" ? 200000 : (tier == "smoke" ? 200 : 10000);
+  if (!total) total = tier == "thorough" ? 200000 : (tier == "smoke" ? 200 : 6000);
   const std::vector<std::string> corpus = SmallCorpus(repo);
 
   if (cmd == "batch") {
